@@ -164,7 +164,11 @@ def run_fragment_wrap(ctx, model):
         for j in range(1, len(seqs)):
             if seqs[j] == seqs[j - 1]:
                 # the boundary between the last round of the first transfer and the first frame of the second packet
-                first_of_second = st["n"] >= rounds - 1 and j == total and total % 65535 == 1
+                # the second packet carries the count it drew when it was built; after 65535·k further draws a fresh count
+                # equals it: between the first transfer's last round and the second packet (first transfer of 65535·k + 1
+                # messages), or — the second packet being a fragmented read itself — between its first and its second
+                # message (first transfer of 65535·k messages)
+                first_of_second = st["n"] >= rounds - 1 and ((j == total and total % 65535 == 1) or (j == total + 1 and total % 65535 == 0))
                 sig = "sequence-count-repeated:packet-built-before-a-transfer-of-65535k-rounds" if first_of_second else "sequence-count-repeated"
                 ctx.violation(sig, dict(case, frame_index=j),
                               "count %d on two consecutive connected messages (frames %d and %d of the call, services %#x, %#x)"
